@@ -114,8 +114,11 @@ class Pool:
         return self.randn(shape)
 
 
-def scalar(rng):
-    c = rng.integers(13)
+N_SCALAR_KINDS = 13
+
+
+def scalar(rng, c=None):
+    c = rng.integers(N_SCALAR_KINDS) if c is None else c
     v = float(np.exp(rng.uniform(math.log(0.1), math.log(8))))
     if c == 0:
         return int(rng.integers(2, 5))
